@@ -25,7 +25,10 @@ fn c02_utf8_body<const L: usize>() {
     assert!(r.is_ok());
     let bytes = r.unwrap();
     assert!(bytes.len() == L);
-    assert!(utf8like_bytesize(v as usize) == L);
+    // (the argument is converted to whatever integer type the function takes)
+    let arg = num_traits::cast(v);
+    assert!(arg.is_some());
+    assert!(utf8like_bytesize(arg.unwrap_or(0)) == L);
     let mut buf = [0u8; 7];
     let mut i = 0;
     while i < L {
